@@ -44,9 +44,12 @@ def fails(kind, toks, target):
     return target == "in-file" and KINDS[kind][2] in toks
 
 
+DROPPING = ("nolicence", "nocopyright", "nothing", "nolicence.commented", "nothing.commented")
+
+
 def bounds(tier, seed):
     return {"kinds": list(KINDS), "files_per_invocation": 3, "orders": "all", "targets": ["in-file", "force-dot-license"], "holder_token_sets": [list(t) for t in HOLDER_SETS],
-            "dropping_templates": ["nolicence", "nocopyright", "nothing"], "usage_cells": len(list(usage_cells()))}
+            "dropping_templates": list(DROPPING), "usage_cells": len(list(usage_cells()))}
 
 
 def usage_cells():
@@ -84,7 +87,7 @@ def cases(tier, seed):
                 yield {"k": "mix", "sel": list(sel), "target": "in-file", "toks": list(toks), "variant": i % 4}
     for sel in itertools.combinations(kinds, 3):
         yield {"k": "mix", "sel": list(sel), "target": "force-dot-license", "toks": list(TOKENS)}
-    for tpl in ("nolicence", "nocopyright", "nothing"):
+    for tpl in DROPPING:
         for target in ("in-file", "force-dot-license", "fallback-dot-license"):
             for sel in itertools.permutations(["H1", "X1", "H3", "BIN", "C3"], 2):
                 yield {"k": "tpl", "tpl": tpl, "target": target, "sel": list(sel)}
